@@ -695,7 +695,11 @@ class FxCtx(Ctx):
             self.externals[fn] = lambda interp, p, fn=fn: SBool(z3.Bool(interp.ex.fresh_name(fn.__name__)))
         self.externals[shutil.copytree] = self.x_copytree
         self.externals[os.path.islink] = lambda interp, p: SBool(z3.Bool("src_is_link"))
-        self.externals[os.path.isfile] = lambda interp, p: SBool(z3.Bool(interp.ex.fresh_name("isfile")))
+        def isfile(interp, p):
+            b = z3.Bool(interp.ex.fresh_name("isfile"))
+            self.ghost.setdefault("isfile_calls", []).append((p, b))       # which question was asked about which path (PxCopy)
+            return SBool(b)
+        self.externals[os.path.isfile] = isfile
         self.externals[os.readlink] = lambda interp, p: SPathTok("link-target")
         self.externals[os.stat] = lambda interp, p: SStat()
         self.externals[os.path.relpath] = lambda interp, *a, **k: OpaqueStr()
@@ -822,6 +826,12 @@ class PxCopy(ProxyMethod):
             linkfx = [["os.symlink"], ["os.remove", "os.symlink"]]
             ok = fx == allowed.get((case["permissions"], case["times"])) or (not case["follow"] and fx in linkfx)
             ex.oblige(self.oname("ensures:live_copy_uses_the_copy_primitive_selected_by_permissions_and_times"), z3.BoolVal(ok), note=str(fx))
+            if not case["follow"] and fx and fx[-1] == "os.symlink":
+                # os.symlink refuses an existing destination: a file that is to be overwritten by a link (the strategy said so) has to be
+                # removed first, whatever kind of file it is -- the question to ask about the destination is "is there a file", not "is it a link"
+                asked = [b for p_, b in g.get("isfile_calls", []) if isinstance(p_, SPathTok) and p_.what == "dst"]
+                ex.oblige(self.oname("ensures:a_file_at_the_destination_is_removed_before_the_link_is_made"),
+                          z3.BoolVal(len(asked) == 1) if len(asked) != 1 else z3.Implies(asked[0], z3.BoolVal(fx == ["os.remove", "os.symlink"])), note=str(fx))
 
 
 class PxCopytree(ProxyMethod):
